@@ -44,6 +44,9 @@ def or3 (a b : Option Bool) : Option Bool :=
 
 def not3 (a : Option Bool) : Option Bool := a.map (!·)
 
+/-- an integer (BOOLEAN column / variable) used as a truth value -/
+def truthy (a : Option Int) : Option Bool := a.map (fun x => decide (x ≠ 0))
+
 def cmpI (f : Int → Int → Bool) (a b : Option Int) : Option Bool :=
   match a, b with | some x, some y => some (f x y) | _, _ => none
 
